@@ -521,7 +521,13 @@ impl B<'_, '_> {
                         let a = self.args(Ty::Any, 1, d);
                         self.callc(7, &a)
                     }
-                    7 => self.pairing(d),
+                    7 => {
+                        if self.t.flip() {
+                            self.pairing(d)
+                        } else {
+                            self.bls_verify()
+                        }
+                    }
                     _ => self.secp(),
                 }
             }
@@ -648,6 +654,40 @@ impl B<'_, '_> {
             }
         }
         self.callc(58, &a)
+    }
+
+    fn bls_verify(&mut self) -> u32 {
+        // (bls_verify sig pk msg ...) with signatures made by the library (AUG scheme), sometimes broken
+        let n = self.t.below(3) as usize;
+        let mut sigs = Vec::new();
+        let mut args = Vec::new();
+        for k in 0..n {
+            let seed = [self.t.below(4) as u8 + 1; 32];
+            let sk = chia_bls::SecretKey::from_seed(&seed);
+            let pk = sk.public_key();
+            let msg = self.t.bytes(1 + k);
+            sigs.push(chia_bls::sign(&sk, &msg));
+            let p0 = self.atom(&pk.to_bytes());
+            args.push(self.quote(p0));
+            let m0 = self.atom(&msg);
+            args.push(self.quote(m0));
+        }
+        let mut agg = chia_bls::Signature::default();
+        for s in &sigs {
+            agg += s;
+        }
+        let mut sb = agg.to_bytes().to_vec();
+        if self.t.chance(1, 5) {
+            sb = valid_g2(self.t.below_usize(5));
+        }
+        let s0 = self.atom(&sb);
+        let sq = self.quote(s0);
+        let mut all = vec![sq];
+        all.extend(args);
+        if self.t.chance(1, 8) {
+            all.pop();
+        }
+        self.callc(59, &all)
     }
 
     fn secp(&mut self) -> u32 {
@@ -857,7 +897,11 @@ fn countdown(t: &mut Tape, cfg: &ProgCfg) -> GenProg {
     let oneq = b.quote(one0);
     let dec = b.callc(17, &[p_n, oneq]);
     let opk = *b.t.pick(&[16u32, 18, 24, 25, 26, 14, 11]);
+    // the extra operand may not refer to the accumulator (slot 2): squaring it on every
+    // iteration makes operands grow exponentially and single cases take seconds
+    b.env = vec![Ty::Any, Ty::Int];
     let extra = b.expr(Ty::Int, 1);
+    b.env = vec![Ty::Any, Ty::Int, Ty::Int];
     let acc2 = b.callc(opk, &[p_acc, p_n, extra]);
     let nil = b.atom(&[]);
     let l3 = b.callc(4, &[acc2, nil]);
